@@ -350,7 +350,7 @@ HOSTILE = {
     "Date": ["Wed, 21 Oct 2015 07:28:00 -0000", "Wed, 21 Oct 2015 07:28:00", "Wed, 21 Oct 2015 07:28:00 XYZ", "", "x", "Wed, 21 Oct 2015 07:28:00 +9999999999", "Wed, 21 Oct 99999 07:28:00 GMT", "Wed, 32 Oct 2015 07:28:00 GMT", "0", "Wed, 21 Oct 2015 25:61:61 GMT",
              "Wed, 21 Oct 2015 07:28:00 -" + "9" * 50, "21 Oct 0000 00:00:00 GMT", "Wed, 21 Oct 2015 07:28:00 GMT" * 10, "1 Jan 1 0:0:0 +9999", "Thu, 01 Jan 1970 00:00:00 -2400",
              "Mon, 01 Jan 0001 00:00:00 +0100", "Fri, 31 Dec 9999 23:59:59 -0100", "\x00", "Wed, 21 Oct 2015 07:28:00 " + "9" * 400],
-    "Referer": ["http://[", "http://[::1", "http://]", "//[x]/", "http://a:b/", "http://a:99999999/", "http://[::1]:x/", "\x00", "http://\xff/", "http://a@b@c:d/", "http://[v1.x]/", "http://[::1]x/"],
+    "Referer": ["http://a:b@/", "http://a:b@@/x", "http://:@:/", "http://u@:80/", "http://[", "http://[::1", "http://]", "//[x]/", "http://a:b/", "http://a:99999999/", "http://[::1]:x/", "\x00", "http://\xff/", "http://a@b@c:d/", "http://[v1.x]/", "http://[::1]x/"],
     "Host": ["[", "]", "[::1", "a:b", "a:99999999999", ":", "", "a b", "\xff", "[::1]x", "a" * 3000, "a:-1", "[v1.x]", "a/b?c#d", "a@b", "http://x"],
     "Range": ["bytes=", "bytes=a-b", "bytes=" + "9" * 5000 + "-", "bytes=-" + "9" * 5000, "bytes=٣-٥", "=", "bytes", "bytes=0-" + "1" * 5000, "bytes=--1", "bytes=1-2-3", "bytes=" + "0-0," * 3000 + "0-0"],
     "If-Range": ["", "x", "\xff", '"', "W/"],
